@@ -46,6 +46,14 @@ func (fr *Frame) doCall(cc *ssa.CallCommon, fnv Value, args []Value, pc *Term, s
 			ex.event(st, "call."+ex.ctx.fieldName(cc.Value), ref, pc)
 		}
 		if ex.ctx.isSink(cc.Value) {
+			// remember the context the bytes are written under
+			for i, a := range args {
+				if iv, ok := a.(IfaceV); ok && i < cc.Signature().Params().Len() && typeKey(cc.Signature().Params().At(i).Type()) == "context.Context" {
+					st.set("ctxmeta|sinkctx.tag", iv.Tag)
+					st.set("ctxmeta|sinkctx.pay", iv.Pay)
+					break
+				}
+			}
 			for _, a := range args {
 				if sl, ok := a.(SliceV); ok {
 					if w, _, isInt := isIntType(sl.Elem); isInt && w == 8 {
@@ -138,6 +146,24 @@ func (ex *Exec) onStack(fn *ssa.Function) bool {
 	return false
 }
 
+// readerDiscipline (C16): a function that is handed the transport as an
+// io.Reader / io.ReadWriter parameter reads from that value itself, not from a
+// buffering wrapper that may consume bytes beyond what it returns.
+func (ex *Exec) readerDiscipline(rd Value, pos token.Pos, pc *Term) {
+	if !contains(ex.curProps, "C16") || ex.rootReader == nil || ex.dry > 0 {
+		return
+	}
+	iv, ok := rd.(IfaceV)
+	if !ok {
+		return
+	}
+	saved := ex.clauseProps
+	ex.clauseProps = []string{"C16"}
+	ex.oblige("short-read", "reader "+exprAtPos(ex, pos), pos, pc, And(Eq(iv.Tag, ex.rootReader.Tag), Eq(iv.Pay, ex.rootReader.Pay)),
+		"bytes are read from the transport that was handed in (a buffering wrapper would swallow what it reads ahead)")
+	ex.clauseProps = saved
+}
+
 // invoke: interface method call. Dispatches over the concrete types of the
 // analysed packages that implement the interface when the method is one the
 // contracts care about; io.Reader / io.Writer get their library contract.
@@ -161,6 +187,7 @@ func (fr *Frame) invoke(cc *ssa.CallCommon, recv Value, args []Value, pc *Term, 
 					"the byte count of io.Reader.Read is ignored: a short read leaves the buffer partly filled (use io.ReadFull)")
 				ex.clauseProps = saved
 			}
+			ex.readerDiscipline(recv, pos, pc)
 			return fr.modelRead(args[0], pc, st, false)
 		}
 		return fr.modelWrite(args[0], pc, st)
